@@ -311,9 +311,10 @@ def exec (env : Env) (line : String) : String :=
     else if op == "tokenize" then
       let bytes := parseHex (arg as "pw")
       let ch := explode (bytes.length + 1) bytes
-      match Tokens.tokenize ch (parseHex (arg as "idx")) with
-      | some ts => s!"ok toks={showBToks ts}"
-      | none => "err"
+      match TokenizeGo.tokenize ch (parseHex (arg as "idx")) with
+      | .ok ts => s!"ok toks={showBToks ts}"
+      | .err => "err"
+      | .panic => "panic index-out-of-range"
     else if op == "cli" then
       cliLine env as
     else s!"bad-op {op}"
